@@ -35,7 +35,10 @@ func (lsm *LSM) NewIterators(opt *utils.Options) []utils.Iterator {
 	if mem != nil {
 		iter.iters = append(iter.iters, mem.NewIterator(opt))
 	}
-	for _, imm := range immutables {
+	// Newest sealed memtable first (lsm.immutables is oldest first): the merge
+	// iterator keeps the earlier source on equal internal keys, as LSM.Get does.
+	for i := len(immutables) - 1; i >= 0; i-- {
+		imm := immutables[i]
 		if imm == nil {
 			continue
 		}
